@@ -48,11 +48,20 @@ def tlc(mod, cfg, workers=1, **kw):
     # parallel runs need distinct metadirs (run_tlc names them work_id-pid-milliseconds)
     _seq[0] += 1
     kw.setdefault("work_id", "c07-%d-%s" % (_seq[0], cfg[:-4]))
-    if kw.pop("short", SHORT[0]):
-        # runs of a few seconds: C1-only JIT and two GC threads halve the JVM's start-up CPU (measured 6.4 -> 2.6 s)
-        kw["env"] = dict(kw.get("env") or {}, _JAVA_OPTIONS="-XX:TieredStopAtLevel=1 -XX:ParallelGCThreads=2")
     kw.setdefault("timeout", 1700)
     kw.setdefault("heap", "2g")
+    short = kw.pop("short", SHORT[0])
+    if kw.get("coverage"):
+        # -coverage keeps per-expression statistics and needs far more heap than the run itself (25 k states: > 512 MB);
+        # under a loaded machine the "GC overhead limit" heuristic fired at 2 GB, so it is switched off
+        kw["heap"] = "4g"
+        opts = "-XX:-UseGCOverheadLimit"
+    elif short:
+        # runs of a few seconds: C1-only JIT halves the JVM's start-up CPU (measured 6.4 -> 2.6 s)
+        opts = "-XX:TieredStopAtLevel=1 -XX:-UseGCOverheadLimit"
+    else:
+        opts = "-XX:-UseGCOverheadLimit"
+    kw["env"] = dict(kw.get("env") or {}, _JAVA_OPTIONS=opts)
     return run_tlc(mod, cfg, D, workers=workers, **kw)
 
 
